@@ -1,6 +1,6 @@
 (* C14 -- Rendering a document in parts equals rendering it whole (partial).  Property theorems only. *)
 From Rimu Require Import Base Regex RegexParse Str Types Tables Guards State Inline Block
-  Frame FrameBlock FrameInst OptionsLemmas MiscLemmas.
+  Frame FrameBlock FrameInst OptionsLemmas MiscLemmas Locality.
 
 (* a call without reset and without option values starts rendering from exactly the session the
    previous call left (only the callback flag is re-installed): definitions, options, ids and
@@ -19,3 +19,32 @@ Print Assumptions C14_options_persist.
 
 Example C14_ex : reset_is_false PyNone = true.
 Proof. reflexivity. Qed.
+
+(* PARTS = WHOLE at the block loop: if the blocks of A (line blocks and delimited blocks, taken by the loop one after the
+   other: prefix_run) end before a non-empty run of trailing blank lines of A -- so no block of A is unterminated and A
+   does not end in a list --, then for every B the loop renders A followed by B as it renders A, then B from the session
+   that A left: same HTML, same session, same diagnostics (the log is part of the session) *)
+Theorem C14_parts_equal_whole : forall fuel doc n la lb s o rdk sk n',
+  prefix_run fuel doc n la s o rdk sk n' -> rdk <> [] -> all_blank rdk ->
+  doc_loop fuel doc n la s = then_loop o (doc_loop fuel doc n' [] sk) /\
+  doc_loop fuel doc n (la ++ lb) s = then_loop o (doc_loop fuel doc n' lb sk).
+Proof. exact parts_equal_whole. Qed.
+Print Assumptions C14_parts_equal_whole.
+
+(* the premise is met by an ordinary document: a paragraph and two blank lines (the intermediate sessions are read off the
+   model's own results, so that every premise is a closed computation) *)
+Definition ex_fuel := 20%nat.
+Definition ex_doc := doc_render 20.
+Definition ex_la : reader := [$"Hello *world*"; []; []].
+Definition ex_s0 := document_init S0.
+Definition ex_s1 := match lineblocks_render ex_fuel ex_la [] ex_s0 with Ok (_, s) => s | _ => S0 end.
+Definition ex_s2 := match lists_render ex_fuel ex_doc 4 ex_la ex_s1 with Ok (_, s) => s | _ => S0 end.
+Definition ex_s3 := match dblocks_render ex_fuel ex_doc ex_la [] ex_s2 with Ok (_, s) => s | _ => S0 end.
+Definition ex_out : str := $"<p>Hello <em>world</em></p>" ++ [10].
+
+Example C14_ex_prefix_run : prefix_run ex_fuel ex_doc 5 ex_la ex_s0 (ex_out ++ []) [[]] ex_s3 4 /\ all_blank [[]].
+Proof.
+  split; [|reflexivity].
+  eapply (pr_dblock ex_fuel ex_doc 4 ex_la ($"Hello *world*") [[]; []] ex_la ex_la ex_out [[]] ex_s0 ex_s1 ex_s2 ex_s3);
+    [vm_compute; reflexivity|vm_compute; reflexivity|vm_compute; reflexivity|vm_compute; reflexivity|apply pr_done].
+Qed.
